@@ -174,7 +174,7 @@ func check(args []string) int {
 	verif := fs.String("verif", "/verif", "")
 	tier := fs.String("tier", os.Getenv("VERIF_TIER"), "quick|thorough")
 	workers := fs.Int("workers", 16, "")
-	solver := fs.String("solver", "z3", "")
+	solver := fs.String("solver", "z3-new", "")
 	budget := fs.Int("budget", 0, "seconds (0 = tier default)")
 	validate := fs.Int("validate", -1, "number of passing paths to validate natively (-1 = tier default)")
 	if len(args) < 1 {
@@ -232,7 +232,7 @@ func check(args []string) int {
 	for _, e := range entries {
 		res, err := P.Explore(gosym.Config{
 			Entry: e, Workers: *workers, Solver: *solver, Seed: seed,
-			SampleMod: 1, MaxSamples: nval * 4, Deadline: deadline,
+			SampleMod: 7, MaxSamples: nval * 4, Deadline: deadline,
 			Verbose: os.Getenv("VERIF_VERBOSE") != "",
 		})
 		if err != nil {
